@@ -1,6 +1,6 @@
 ----------------------------- MODULE Export_C06 -----------------------------
 EXTENDS U_C06, Json, IOUtils
-ASSUME JsonSerialize(IOEnv.JASM_OUT, Universe)
+ASSUME JsonSerialize(IOEnv.JASM_OUT, [m |-> Universe, s |-> UniverseS])
 VARIABLE x
 Init == x = 0
 Next == x' = x
